@@ -6,6 +6,7 @@
   about.  The final `switch Compare(left, right)` is recognised arm by arm (`resizeFinal`).
 -/
 import Gts.Gen.RegionResize
+import Gts.Gen.Arith
 import Gts.Model.Region
 namespace Gts.Bridge
 open Gts
@@ -162,18 +163,50 @@ theorem resizeFinal_eq :
       "case 0: return ret[left].Resize(HeadHead{lower, upper})",
       "default: ret[left] = ret[left].Resize(HeadTail{lower, 0}); ret[right] = ret[right].Resize(HeadHead{0, upper}); return ret[left : right+1]"] := rfl
 
+theorem compare_one (i j : Int) : Gen.compare i j = 1 ↔ j < i := by
+  unfold Gen.compare
+  by_cases h1 : i < j
+  · simp only [h1, if_true]
+    constructor
+    · intro h; exact absurd h (by decide)
+    · intro h; omega
+  · by_cases h2 : j < i <;> simp [h1, h2]
+
+theorem compare_zero (i j : Int) : Gen.compare i j = 0 ↔ i = j := by
+  unfold Gen.compare
+  by_cases h1 : i < j
+  · simp only [h1, if_true]
+    constructor
+    · intro h; exact absurd h (by decide)
+    · intro h; omega
+  · by_cases h2 : j < i
+    · simp only [h1, h2, if_true, if_false]
+      constructor
+      · intro h; exact absurd h (by decide)
+      · intro h; omega
+    · simp only [h1, h2, if_false]
+      exact ⟨fun _ => by omega, fun _ => trivial⟩
+
 /-- `Regions.Resize(mod)` of the model is: the REGENERATED bounds, the REGENERATED walk, then the
-final switch (recognised arm by arm, hand-modelled: `Compare(left, right) = 1` is `right < left`) -/
+final `switch Compare(left, right)` with the regenerated `Compare` of utils.go and the three arms
+recognised statement by statement (`resizeFinal_eq`; what the arms do — `ret[left].Resize(…)`, the
+span — stays hand-modelled: `resizeNth`, `resizeSpan`) -/
 theorem resize_many_gen (rs : List Reg) (m : Mod) (fuel : Nat) (h : rs.length ≤ fuel + 1) :
     Reg.resize (.many rs) m =
       (let b := Gen.resizeBounds m (Reg.lens rs)
        let w := Gen.resizeWalk fuel (Reg.lens rs) b.1 b.2
        let left := w.1; let lower := w.2.1; let right := w.2.2.1; let upper := w.2.2.2
-       if right < left then Reg.resizeNth rs left.toNat (.head lower)
-       else if left = right then Reg.resizeNth rs left.toNat (.headHead lower upper)
+       if Gen.compare left right = 1 then Reg.resizeNth rs left.toNat (.head lower)
+       else if Gen.compare left right = 0 then Reg.resizeNth rs left.toNat (.headHead lower upper)
        else .many (Reg.resizeSpan rs left.toNat right.toNat lower upper)) := by
   have hl : (Reg.lens rs).length = rs.length := lens_length rs
-  simp only [resizeBounds_eq, resizeWalk_eq fuel (Reg.lens rs) _ _ (by omega), Reg.resize, Int.toNat_natCast]
+  simp only [resizeBounds_eq, resizeWalk_eq fuel (Reg.lens rs) _ _ (by omega), Reg.resize, Int.toNat_natCast,
+    compare_one, compare_zero]
   simp only [Int.ofNat_lt, Int.natCast_inj]
+
+example : (Reg.resize (.many [.seg 0 2, .seg 5 8, .seg 10 14]) (.headTail 3 (-2)) ==
+    .many [.seg 6 8, .seg 10 12]) = true := by decide
+
+example : ([Reg.seg 0 2, .seg 5 8, .seg 10 14]).length ≤ 2 + 1 := by decide
 
 end Gts.Bridge
